@@ -106,7 +106,7 @@ def op_strategy(kind: str, cfg: dict):
                                                                st.one_of(st.integers(-5, 5), st.sampled_from(NAMES)),
                                                                min_size=1, max_size=2)})
     if kind == "file":
-        return st.fixed_dictionaries({"op": st.just("file"), "who": idx, "blob": small_ints(0, 8),
+        return st.fixed_dictionaries({"op": st.just("file"), "who": idx, "blob": small_ints(1, 8),
                                       "name": st.sampled_from(["f.dat", "g.bin"])})
     if kind == "comment":
         return st.fixed_dictionaries({"op": st.just("comment"), "who": idx, "text": name})
@@ -123,7 +123,7 @@ DEFAULT_CFG = {
     "object_classes": F.CORE_OBJECT_CLASSES,
     "data_kinds": ["float", "int", "bool", "ref", "text"],
     "weights": {"group": 3, "object": 5, "data": 6, "values": 3, "rename": 2, "flag": 2, "move": 4, "copy": 4,
-                "remove": 4, "pg_add": 3, "pg_remove_props": 1, "pg_delete": 1, "metadata": 1, "file": 1,
+                "remove": 4, "pg_add": 4, "pg_remove_props": 2, "pg_delete": 1, "metadata": 1, "file": 1,
                 "comment": 0, "reopen": 3, "gc": 2, "hold": 1, "release": 1, "observe": 1},
     "ws2": True,
     "prefix": [],
@@ -241,7 +241,8 @@ class TreeRun:
         self.worlds: list = []
         self.step = -1
         self.stopped = False
-        self.removed: dict = {}  # uid -> name, for absence clauses (C05)
+        self.removed: dict = {}  # uid -> (class, entry point, absence-check mode) for C05 clauses
+        self.removed_names: dict = {}
         self.stats = {"effective": 0, "kinds": set(), "reopens": 0, "onfile_mutations": 0,
                       "op_errors": 0, "removals_rich": 0, "copies": 0, "cross_copies": 0, "moves": 0}
         self.since_reopen_mut = False
@@ -296,12 +297,17 @@ class TreeRun:
         except OpError as exc:
             self.stats["op_errors"] += 1
             self.res.count("op_errors")
-            self.res.label("op_error:" + kind)
             cause = exc.__cause__
             detail = f"{type(cause).__name__}: {cause}"
-            for prop in ("C05", "C06", "C12"):
-                if prop in self.props and self.opts.get("op_error_is_violation", {}).get(kind, prop in ("C05",)):
-                    self.fail(prop, "op-error", kind, exc.args[0] if exc.args else "?", type(cause).__name__, detail)
+            self.res.label("op_error:" + kind + ":" + (exc.args[0] if exc.args else "?") + ":" + detail[:70])
+            label = exc.args[0] if exc.args else "?"
+            if "C05" in self.props and self.removed:
+                # "later operations on the survivors succeed"
+                self.fail("C05", "later-op-fails", kind, label, type(cause).__name__, detail)
+            if "C06" in self.props and kind in ("group", "object", "data", "copy"):
+                self.fail("C06", "fresh-creation-fails", kind, label, type(cause).__name__, detail)
+            if "C12" in self.props and kind == "copy":
+                self.fail("C12", "copy-raises", kind, label, type(cause).__name__, detail)
             # the state after a failed operation is not claimed by the property: stop here
             self.stopped = True
             return
@@ -376,8 +382,14 @@ class TreeRun:
             if "C02" in self.props:
                 snap = rawsnap(str(wd.path))
                 for clause, detail in check_valid(snap):
-                    self.fail("C02", clause, "close", "file", "final" if final else "mid", detail)
+                    cond = "final" if final else "mid"
+                    hit = [g for g, (_c, via, _m) in self.removed.items() if g in detail and g not in wd.nodes]
+                    if hit:
+                        cond += ":node-removed-via-" + self.removed[hit[0]][1]
+                    self.fail("C02", clause, "close", "file", cond, detail)
                     break
+            if "C05" in self.props and wd is self.worlds[0] and self.removed:
+                self.check_raw_absent(wd)
             fresh = Workspace(wd.path)
             wd.ws = fresh
             after = apisnap(fresh, with_listings=True)
@@ -398,6 +410,11 @@ class TreeRun:
             self.compare_model(wd, after, "reopen", where="reopened")
             if self.stopped:
                 return
+            if "C05" in self.props and wd is self.worlds[0] and self.removed:
+                gone_now = [g for g in self.removed if g not in wd.nodes]
+                self.check_absent(wd, gone_now, "reopen", "any", where="reopened", lookup_first=False)
+                if self.stopped:
+                    return
             post_reopen = self.opts.get("post_reopen")
             if post_reopen:
                 post_reopen(self, wd)
@@ -488,8 +505,12 @@ class TreeRun:
             return False
         obj = wd.entity(obj_uid)
         assoc = op["assoc"]
+        name = op["name"]
         if wd.nodes[obj_uid]["cls"] == "Drillhole":
             assoc = "OBJECT"  # depth / interval data of plain drillholes are owned by C18
+            taken = {wd.nodes[c].get("name") for c in wd.nodes[obj_uid]["children"] if c in wd.nodes}
+            while name in taken:  # drillholes refuse duplicate data names (documented)
+                name += "_"
         count = self.element_count(wd, obj_uid, assoc)
         if count is None or count == 0:
             assoc, count = "OBJECT", 1
@@ -507,12 +528,12 @@ class TreeRun:
             expected = [("" if v is None else f"s{v}") for v in vals]  # text arrays are stored as given (no padding rule)
         spec = F.data_spec(kind, assoc, arr)
         if "pg" in op and assoc != "OBJECT":
-            new = self.call(kind, obj.add_data, {op["name"]: spec}, property_group=op["pg"])
+            new = self.call(kind, obj.add_data, {name: spec}, property_group=op["pg"])
         else:
-            new = self.call(kind, obj.add_data, {op["name"]: spec})
+            new = self.call(kind, obj.add_data, {name: spec})
         uid = str(new.uid)
         node = snap_entity(new)
-        self.check_created(wd, uid, node, F.KIND_CLASS[kind], obj_uid, op["name"], "data")
+        self.check_created(wd, uid, node, F.KIND_CLASS[kind], obj_uid, name, "data")
         got = node.get("values")
         want = ["arr", F.KIND_DTYPE[kind], [len(expected)], expected]
         if got != want:
@@ -843,8 +864,16 @@ class TreeRun:
         node = wd.nodes[uid]
         cls = node["cls"]
         ent = wd.entity(uid)
+        for g in [uid] + wd.descendants(uid):
+            self.removed_names[g] = wd.nodes[g].get("name")
         rich = bool(wd.descendants(uid)) or any(uid in pg["props"] for pg in (wd.nodes[node["parent"]].get("pgs") or {}).values())
         n_groups = sum(uid in pg["props"] for pg in (wd.nodes[node["parent"]].get("pgs") or {}).values())
+        if op["via"] == "ws" and node.get("allow_delete") is not False and any(
+                wd.nodes[d].get("allow_delete") is False for d in wd.descendants(uid)):
+            # removing an entity with a protected descendant: outcome not fixed by the statement
+            self.res.count("skipped_protected_descendant")
+            del ent
+            return False
         if op["via"] == "ws":
             if node.get("allow_delete") is False:
                 pre = apisnap(wd.ws, with_listings=False)["nodes"]
@@ -868,34 +897,95 @@ class TreeRun:
             del parent
         del ent
         gone = wd.drop(uid)
+        mode = ("lookup-first", "listing-first", "no-listing")[op["who"] % 3]
+        if op["via"] == "parent" and mode != "listing-first" and not self.program.get("allow_known"):
+            # known finding (C05/C02): nodes of parent-removed entities are deleted lazily by the next
+            # listing after GC; a lookup or a close before that leaves them in the file. Neutralised here
+            # (a listing right after the removal) so that the search continues behind it.
+            self.res.count("excluded_by_finding")
+            mode = "listing-first"
+            gc.collect()
+            for listing in ("groups", "objects", "data"):
+                getattr(wd.ws, listing)
         for g in gone:
-            self.removed[g] = (cls, op["via"])
+            self.removed[g] = (cls, op["via"], mode)
+        # "once the caller has dropped its own references": the harness drops what it held
+        self.held = [h for h in self.held if str(h.uid) not in gone]
         if rich:
             self.stats["removals_rich"] += 1
         self.res.label(f"remove:{op['via']}:groups={min(n_groups, 2)}")
+        self.res.label("absence-check:" + mode)
         self.touch()
         gc.collect()
-        self.check_absent(wd, gone, "remove_" + op["via"], cls)
+        if mode != "no-listing":
+            self.check_absent(wd, gone, "remove_" + op["via"], cls, lookup_first=(mode == "lookup-first"))
         return True
 
-    def check_absent(self, wd, gone, opkind, cls, where="live"):
+    def check_absent(self, wd, gone, opkind, cls, where="live", lookup_first=True):
         if "C05" not in self.props:
             return
-        for g in gone:
-            ent = wd.ws.get_entity(uuid.UUID(g))[0]
-            if ent is not None:
-                self.fail("C05", "lookup-yields-removed", opkind, cls, where, f"get_entity({g}) still returns {type(ent).__name__}")
+
+        def lookups():
+            for g in gone:
+                ent = wd.ws.get_entity(uuid.UUID(g))[0]
+                if ent is not None:
+                    self.fail("C05", "lookup-yields-removed", opkind, cls, where, f"get_entity({g}) still returns {type(ent).__name__}")
+                    return
+
+        def listings():
+            for listing in ("groups", "objects", "data"):
+                try:
+                    ents = list(getattr(wd.ws, listing))
+                except Exception as exc:
+                    self.fail("C05", "listing-raises", opkind, cls, f"{listing}@{where}", f"workspace.{listing} raised {type(exc).__name__}: {exc}")
+                    return
+                for ent in ents:
+                    if str(ent.uid) in gone:
+                        self.fail("C05", "listing-yields-removed", opkind, cls, f"{listing}@{where}", f"workspace.{listing} still lists removed {ent.uid}")
+                        return
+            for pg in wd.ws.property_groups:
+                for prop in pg.properties or []:
+                    if str(prop) in gone:
+                        self.fail("C05", "dangling-pg-ref", opkind, cls, where, f"property group {pg.name!r} of {pg.parent.name!r} still lists removed data {prop}")
+                        return
+
+        for step in ((lookups, listings) if lookup_first else (listings, lookups)):
+            step()
+            if self.stopped:
                 return
-        for listing in ("groups", "objects", "data"):
-            for ent in getattr(wd.ws, listing):
-                if str(ent.uid) in gone:
-                    self.fail("C05", "listing-yields-removed", opkind, cls, f"{listing}@{where}", f"workspace.{listing} still lists removed {g}")
+        # lookup by name must not yield a removed entity either
+        names = {n for n in (self.removed_names.get(g) for g in gone) if n is not None}
+        for name in names:
+            for ent in wd.ws.get_entity(name):
+                if ent is not None and str(ent.uid) in gone:
+                    self.fail("C05", "lookup-by-name-yields-removed", opkind, cls, where, f"get_entity({name!r}) returns removed {ent.uid}")
                     return
-        for pg in wd.ws.property_groups:
-            for prop in pg.properties or []:
-                if str(prop) in gone:
-                    self.fail("C05", "dangling-pg-ref", opkind, cls, where, f"property group {pg.name!r} of {pg.parent.name!r} still lists removed data {prop}")
+
+    def check_raw_absent(self, wd):
+        """After a close: nothing in the file mentions a removed entity (plain h5py view)."""
+        snap = rawsnap(str(wd.path))
+        gone = {("{" + g + "}").lower(): g for g in self.removed if g not in wd.nodes}
+        for cname, nodes in snap["containers"].items():
+            for uid, node in nodes.items():
+                if uid.lower() in gone:
+                    cls, via, mode = self.removed[gone[uid.lower()]]
+                    self.fail("C05", "file-node-remains", "remove_" + via, cls, f"{cname}:{mode}", f"{cname}/{uid} still in the file after removal and close")
                     return
+                for sub, entries in node["children"].items():
+                    for child in entries:
+                        if child.lower() in gone:
+                            cls, via, mode = self.removed[gone[child.lower()]]
+                            self.fail("C05", "file-link-remains", "remove_" + via, cls, sub, f"{cname}/{uid}/{sub}/{child} link remains after removal and close")
+                            return
+                for pg_uid, attrs in (node["pgs"] or {}).items():
+                    props = attrs.get("Properties") or []
+                    if isinstance(props, str):
+                        props = [props]
+                    for prop in props:
+                        if str(prop).lower() in gone:
+                            cls, via, mode = self.removed[gone[str(prop).lower()]]
+                            self.fail("C05", "file-pg-ref-remains", "remove_" + via, cls, "", f"PropertyGroups/{pg_uid} of {uid} lists removed {prop}")
+                            return
 
     # ------------------------------------------------------------------ property groups
     def op_pg_add(self, op):
